@@ -13,6 +13,8 @@ for f in sorted(glob.glob('/verif/evidence/*.json')):
     try:
         ev = json.load(open(f)); jsonschema.validate(ev, sch)
         c = ev['coverage']
+        if ev['level'] == 'proof' and c.get('obligations') != c.get('discharged'):
+            ok = False; print(f, "INVALID for level proof: discharged (%s) != obligations (%s)" % (c.get('discharged'), c.get('obligations')))
         print(f, "ok", ev['level'], c.get('obligations'), c.get('discharged'), ev['wall_s'])
     except Exception as e:
         ok = False; print(f, "INVALID", str(e)[:300])
